@@ -100,6 +100,37 @@ def check_curve(case):
                 _same(curve.partial_fluxes[k][i], lc.partial_fluxes[k][i], "flux %d at point %d" % (i + 1, k))
                 require(lc.permeances[k][i].units == build.KG, "permeance re-loaded in units %r", lc.permeances[k][i].units)
                 _same(curve.permeances[k][i].value, lc.permeances[k][i].value, "permeance %d at point %d (kg/(m2 h kPa))" % (i + 1, k))
+        # a file with TWO curves (rows of the saved curve and of a vacuum curve of the same points, distinct curve_id, either order):
+        # each curve of the loaded set is the curve that was saved
+        if "partial_fluxes" in kw:
+            import pandas
+
+            kw2 = dict(kw, permeate_temperature=None, permeate_pressure=None, comments="second")
+            kw2.pop("permeances", None)
+            kw2["feed_compositions"] = [build.composition(x, case["basis"]) for x in case["xs"]]
+            second = call(build.DiffusionCurve, **kw2)
+            if not is_raised(second) and all(math.isfinite(p[i].value) for p in second.permeances for i in (0, 1)):
+                p2 = Path(d) / "second.csv"
+                require(not is_raised(call(second.save, p2)), "DiffusionCurve.save of a vacuum curve raised")
+                f1, f2 = pandas.read_csv(path), pandas.read_csv(p2)
+                vacuum_last = len(case["xs"]) % 2 == 1
+                (f1 if vacuum_last else f2)["curve_id"] = 1
+                (f2 if vacuum_last else f1)["curve_id"] = 2
+                both = Path(d) / "both.csv"
+                pandas.concat([f1, f2] if vacuum_last else [f2, f1]).to_csv(both, index=False)
+                lset = call(DiffusionCurveSet.load, both)
+                require(not is_raised(lset) and len(lset.diffusion_curves) == 2, "a file with two curves loads as %r", lset)
+                pairs = ((curve, lset.diffusion_curves[0]), (second, lset.diffusion_curves[1])) if vacuum_last else \
+                        ((second, lset.diffusion_curves[0]), (curve, lset.diffusion_curves[1]))
+                for orig, got in pairs:
+                    what = "two-curve file, %s curve" % ("vacuum" if orig is second else case["perm"]["mode"])
+                    _same(orig.permeate_temperature, got.permeate_temperature, what + ": permeate temperature")
+                    _same(orig.permeate_pressure, got.permeate_pressure, what + ": permeate pressure")
+                    require(len(got.permeances) == len(orig.permeances), "%s: %d points saved, %d loaded", what, len(orig.permeances), len(got.permeances))
+                    for k in range(len(orig.permeances)):
+                        for i in (0, 1):
+                            _same(orig.partial_fluxes[k][i], got.partial_fluxes[k][i], "%s: flux %d at point %d" % (what, i + 1, k))
+                            _same(orig.permeances[k][i].value, got.permeances[k][i].value, "%s: permeance %d at point %d" % (what, i + 1, k))
     finally:
         shutil.rmtree(d, ignore_errors=True)
     return {"nontrivial": len(comps) >= 2 and case["perm"]["mode"] != "vacuum",
@@ -289,6 +320,7 @@ def direct_model(draw):
             "flux": [[draw(_value()), draw(_value())] for _ in range(n)], "perm_vals": [[draw(_value(1e-9, 1.0)), draw(_value(1e-9, 1.0))] for _ in range(n)],
             "units": units, "time": [draw(_value()) for _ in range(n)], "q": [draw(_value()) for _ in range(n)],
             "qc": [draw(_value()) for _ in range(n)] if perm["mode"] == "temperature" else None, "basis": draw(gen.basis),
+            "ybasis": draw(gen.basis),
             "cond": {"area": draw(_value()), "T": t, "amount": draw(_value()), "x": draw(gen.fraction()), "basis": draw(gen.basis),
                      "Tp": perm["T"], "pp": perm["p"]}}
 
@@ -301,7 +333,7 @@ def build_direct(spec):
     return ProcessModel(
         mixture=mix, membrane_name="MEM", feed_temperature=list(spec["T"]),
         feed_compositions=[build.composition(w, spec["basis"]) for w in spec["w"]],
-        permeate_composition=[build.composition(y, "weight") for y in spec["y"]],
+        permeate_composition=[build.composition(y, spec.get("ybasis", "weight")) for y in spec["y"]],
         permeate_temperature=[spec["perm"]["T"]] * n, permeate_pressure=[spec["perm"]["p"]] * n, feed_mass=list(spec["mass"]),
         partial_fluxes=[tuple(f) for f in spec["flux"]],
         permeances=[(build.permeance(p[0], spec["units"]), build.permeance(p[1], spec["units"])) for p in spec["perm_vals"]],
